@@ -4,6 +4,8 @@ CONSTANTS
   ROSChoices = {TRUE, FALSE}
   RefOutcomes = {"nil", "err"}
   CloseLate = FALSE
+  ExtraRefreshes = FALSE
+  MaxExtra = 2
   StopOnCancel = FALSE
   SctxInit = {"live", "cancelled"}
   AllowTBD = TRUE
